@@ -33,7 +33,7 @@ ASSUMPTIONS = [
 ]
 FORMS = gen.BUILTIN + ["buck4"]
 REQUIRED = dict(("cell:%s:%s" % (f, r), 8) for f in FORMS for r in ("forms", "potable")
-                ) | dict(("cell:%s:%s" % (f, r), 8) for f in gen.BUILTIN for r in ("functions", "formula"))
+                ) | dict(("cell:%s:%s" % (f, r), 8) for f in gen.BUILTIN for r in ("functions", "formula")) | {"other_units": 40}
 
 
 @st.composite
@@ -50,8 +50,27 @@ def _case(draw):
     return {"form": name, "p": p, "rs": rs, "p_alt": p2}
 
 
+@st.composite
+def _units(draw, name):
+    """the same functions in other units (parameters of extreme but valid magnitude, e.g. SI)"""
+    e, l = draw(st.sampled_from([(-19, -10), (0, -10), (-19, 0), (3, 1), (-25, -8), (12, 2), (20, -6), (-6, 8)]))
+    p = gen.rescale(name, draw(gen.form_params(name)), e, l)
+    p2 = gen.rescale(name, draw(gen.form_params(name)), e, l)
+    L = 10.0 ** l
+    rs = [r * L for r in draw(st.lists(gen.fl(0.02, 30.0), min_size=4, max_size=8)) if r > 0]
+    if name == "buck4":
+        rs.extend([p[3], p[4], p[5], (p[3] + p[4]) / 2, (p[4] + p[5]) / 2])
+    return {"form": name, "p": p, "rs": rs, "p_alt": p2, "units": [e, l]}
+
+
 def strategy(tier):
     return _case()
+
+
+def strata(tier):
+    # one stratum per form: Hypothesis' sampled_from is too clumpy at 100 examples to reach every form
+    n = len(gen.UNIT_FORMS)
+    return [("natural units", _case(), 6 * n)] + [("other units:" + f, _units(f), 1) for f in gen.UNIT_FORMS]
 
 
 def budget(tier):
@@ -83,7 +102,9 @@ def validate(case):
 def check_case(case):
     name, p, rs = case["form"], case["p"], case["rs"]
     v = []
-    cls = []
+    cls = ["other_units"] if case.get("units") else []
+    if any(0 < abs(x) < 1e-16 for x in p):
+        cls.append("parameter_below_1e-16:" + name)
     node = {"k": "form", "name": name, "p": p}
     pd = {"ranges": [{"m": None, "s": None, "body": node}]}
     ref = model.Ref()
@@ -128,7 +149,7 @@ def check_case(case):
         if name != "buck4":
             jj = j
             for i, pv in enumerate(p):
-                if float(pv) != int(pv):
+                if float(pv) != int(pv) or abs(pv) >= 2.0 ** 53:   # written with a fraction or an exponent
                     q = list(p)
                     q[i] = pv * (1.0 + model._PERT)
                     try:
